@@ -5,6 +5,7 @@ package main
 
 import (
 	"fmt"
+	"go/token"
 	"go/types"
 	"sort"
 	"strings"
@@ -55,6 +56,29 @@ func configImmutable(c *Ctx, id string) {
 					return // frozen exception: ephemeral bucket ⇒ nothing to persist ⇒ the gate must not wait (C07.R12 decides its exact condition)
 				}
 				bad = append(bad, fname(fn)+": "+o+" ← "+w.Origin(x.Val)+" @"+w.pos(in.Pos()))
+			case ssa.CallInstruction:
+				// an in-place library mutator applied to a slice of the configuration (or to one a config getter hands out,
+				// which may share its backing array): sorting it rewrites what was configured
+				cc := x.Common()
+				var target ssa.Value
+				if b, isB := cc.Value.(*ssa.Builtin); isB {
+					if (b.Name() == "copy" || b.Name() == "clear" || b.Name() == "delete") && len(cc.Args) > 0 {
+						target = cc.Args[0]
+					}
+				} else if sf := cc.StaticCallee(); sf != nil && !w.inModule(sf) && len(cc.Args) > 0 {
+					pp := pkgPathOf(sf)
+					nm := sf.Name()
+					if o := sf.Origin(); o != nil {
+						nm = o.Name()
+					}
+					if (pp == "sort" && inPlaceSort[nm]) || (pp == "slices" && inPlaceSlices[nm]) {
+						target = cc.Args[0]
+					}
+				}
+				if target != nil && cfgDerived(target, 0) {
+					n++
+					bad = append(bad, fname(fn)+": "+calleeName(cc)+" rewrites "+w.Origin(target)+" in place @"+w.pos(in.Pos()))
+				}
 			case *ssa.MapUpdate:
 				if f := loadedField(unwrap(x.Map)); isCfgField(f) {
 					n++
@@ -66,6 +90,70 @@ func configImmutable(c *Ctx, id string) {
 	sort.Strings(bad)
 	c.Check(len(bad) == 0, id, "config-read-only", 0, fmt.Sprintf("outside package config the configuration is only read (%d writes seen, all of them the frozen exception)", n),
 		"the shared configuration is written after defaulting: "+strings.Join(bad, "; "))
+}
+
+var inPlaceSort = map[string]bool{"Strings": true, "Ints": true, "Float64s": true, "Slice": true, "SliceStable": true, "Sort": true, "Stable": true}
+var inPlaceSlices = map[string]bool{"Sort": true, "SortFunc": true, "SortStableFunc": true, "Reverse": true, "Compact": true, "CompactFunc": true, "Delete": true, "DeleteFunc": true, "Insert": true, "Replace": true}
+
+// cfgDerived: the value is (or may share storage with) a slice or map of the configuration: loaded from a field declared
+// in package config, a field or part of what a function of package config returned, a re-slice or conversion of such.
+func cfgDerived(v ssa.Value, depth int) bool {
+	if depth > 8 {
+		return false
+	}
+	isCfgPkg := func(p string) bool { return strings.HasSuffix(p, "/config") }
+	switch x := v.(type) {
+	case *ssa.UnOp:
+		if x.Op != token.MUL {
+			return false
+		}
+		if fa, ok := x.X.(*ssa.FieldAddr); ok {
+			if f := fieldOfAddr(fa); f != nil && f.Pkg() != nil && isCfgPkg(f.Pkg().Path()) {
+				return true
+			}
+			return cfgDerived(fa.X, depth+1)
+		}
+		if ia, ok := x.X.(*ssa.IndexAddr); ok {
+			return cfgDerived(ia.X, depth+1)
+		}
+		if al, ok := x.X.(*ssa.Alloc); ok {
+			if sv, one := singleStore(al); one {
+				return cfgDerived(sv, depth+1)
+			}
+		}
+		return false
+	case *ssa.Field:
+		if st, ok := x.X.Type().Underlying().(*types.Struct); ok {
+			if f := st.Field(x.Field); f.Pkg() != nil && isCfgPkg(f.Pkg().Path()) {
+				return true
+			}
+		}
+		return cfgDerived(x.X, depth+1)
+	case *ssa.FieldAddr:
+		return cfgDerived(x.X, depth+1)
+	case *ssa.Call:
+		if sf := x.Common().StaticCallee(); sf != nil {
+			return isCfgPkg(pkgPathOf(sf))
+		}
+		return false
+	case *ssa.Extract:
+		return cfgDerived(x.Tuple, depth+1)
+	case *ssa.Slice:
+		return cfgDerived(x.X, depth+1)
+	case *ssa.ChangeType:
+		return cfgDerived(x.X, depth+1)
+	case *ssa.Convert:
+		return cfgDerived(x.X, depth+1)
+	case *ssa.MakeInterface:
+		return cfgDerived(x.X, depth+1)
+	case *ssa.Phi:
+		for _, e := range x.Edges {
+			if cfgDerived(e, depth+1) {
+				return true
+			}
+		}
+	}
+	return false
 }
 
 // rootAlloc: the Alloc a chain of FieldAddr/IndexAddr starts at (nil if it starts elsewhere).
@@ -1667,6 +1755,84 @@ func serialCloseTokens(c *Ctx, id string) {
 			bad = append(bad, "the token is not put before the close request it guards")
 		}
 	}
+	// a token is taken only for an end that answers a close request: the receive runs under the "closing" flag of the
+	// serial-close state, which the close loop raises before its first token and lowers after its last — a stream that
+	// ends by itself (finite mode, a transient end) must not wait for a token nobody will put
+	if len(recvs) == 1 {
+		var flag *types.Var
+		if st, ok := dataT.Underlying().(*types.Struct); ok {
+			for i := 0; i < st.NumFields(); i++ {
+				if isBool(st.Field(i).Type()) {
+					flag = st.Field(i)
+				}
+			}
+		}
+		underFlag := flag != nil && guardedBy(recvs[0].in.Block(), true, func(v ssa.Value) bool { f, _ := flagRead(v); return f == flag })
+		raised, lowered := false, false
+		var raise ssa.Instruction
+		if flag != nil && len(sends) == 1 {
+			allInstrs(rootFn(sends[0].fn), func(in ssa.Instruction) {
+				if f, _, val := flagWrite(in); f == flag {
+					switch w.Origin(val) {
+					case "const(true)":
+						if dominatesInstr(in, sends[0].in) || !cycleBlocks(rootFn(sends[0].fn))[in.Block()] {
+							raised = true
+							raise = in
+						}
+					case "const(false)":
+						lowered = true
+					}
+				}
+			})
+		}
+		// once raised the flag is lowered on every way out of the close: an end that arrives after a close that left
+		// it up would wait for a token nobody puts
+		if raise != nil && lowered && raise.Parent() == sends[0].fn {
+			isLower := func(in ssa.Instruction) bool {
+				f, _, val := flagWrite(in)
+				return f == flag && w.Origin(val) == "const(false)"
+			}
+			if existsPathAvoiding(raise, isLower, false) {
+				bad = append(bad, "the closing flag can stay raised: a path from raising it to the return of "+fname(sends[0].fn)+" does not lower it — every later stream end would wait for a token")
+			}
+		}
+		// the close loop asks every vBucket of the range: it is left only by its bound test
+		if len(sends) == 1 {
+			fn := sends[0].fn
+			sb := sends[0].in.Block()
+			inLoop := map[*ssa.BasicBlock]bool{}
+			for _, b := range fn.Blocks {
+				if blockReaches(b, sb) && blockReaches(sb, b) {
+					inLoop[b] = true
+				}
+			}
+			if !inLoop[sb] {
+				bad = append(bad, "the token is not put inside a loop over the assigned vBuckets")
+			}
+			exits := map[*ssa.BasicBlock]bool{}
+			for b := range inLoop {
+				for _, sx := range b.Succs {
+					if !inLoop[sx] && !deadEnd(sx) {
+						exits[b] = true
+					}
+				}
+			}
+			for b := range exits {
+				for l := range inLoop {
+					if !b.Dominates(l) {
+						bad = append(bad, "the close loop can be left before every assigned vBucket was asked to close (an exit other than its bound test @"+w.pos(lastPos(b))+"): the streams left open keep delivering into the closed session")
+						break
+					}
+				}
+			}
+		}
+		if !underFlag {
+			bad = append(bad, "the end listener takes a token for every stream end, not only while the serial close is in progress (no closing flag guards the receive)")
+		} else if !raised || !lowered {
+			bad = append(bad, fmt.Sprintf("the closing flag is not raised before and lowered after the close loop (raised: %v, lowered: %v)", raised, lowered))
+		}
+	}
+	bad = dedupStrings(bad)
 	c.Check(len(bad) == 0, id, "serial-close-tokens", 0, "one blocking send before each close request, one blocking receive per stream end, nothing else touches the channel", "the serial-close hand-shake is broken: "+strings.Join(bad, "; ")+" — two close requests can be in flight on a server whose stream table is not thread-safe")
 }
 
@@ -1778,4 +1944,16 @@ func rebalanceLockOwners(c *Ctx, id string) {
 	}
 	sort.Strings(bad)
 	c.Check(n >= 2 && len(bad) == 0, id, "rebalance-lock-owners", reb.Pos(), fmt.Sprintf("%d operations on the rebalance lock, all in the hand-off (Rebalance → timer-driven reopen)", n), "the rebalance lock is taken outside the hand-off: "+strings.Join(bad, ", ")+" — a lifecycle callback that calls it (Commit from BeforeStreamStop, say) dead-locks the rebalance")
+}
+
+func dedupStrings(in []string) []string {
+	seen := map[string]bool{}
+	var out []string
+	for _, x := range in {
+		if !seen[x] {
+			seen[x] = true
+			out = append(out, x)
+		}
+	}
+	return out
 }
